@@ -340,6 +340,11 @@ func confirm(eng *symx.Engine, harness string, v *symx.Violation, path string) (
 	case 1:
 		return true, how + ", native-go-test=reproduced"
 	case 0:
+		if strings.Contains(" "+v.Trace, " c") {
+			// the counterexample depends on engine choices (goroutine schedule, select, map order)
+			// that a native run cannot be forced into: confirmed by the interpreter only
+			return true, how + ", native-go-test=not reproduced under the Go scheduler's own schedule (schedule-dependent counterexample, interpreter-confirmed)"
+		}
 		return false, how + ", native-go-test=NOT reproduced: " + nmsg
 	}
 	return true, how + ", native=" + nmsg
